@@ -1540,6 +1540,11 @@ def _encode_host(host: str, validate_host: bool) -> str:
             # These checks should not happen in the
             # LRU to keep the cache size small
             host = ip.compressed
+            if sep and validate_host and (invalid := NOT_REG_NAME.search(zone.lower())):
+                raise ValueError(
+                    f"Zone {zone!r} of host {raw_ip!r} cannot contain "
+                    f"{invalid.group()!r} (at position {invalid.start()})"
+                )
             if ip.version == 6:
                 return f"[{host}%{zone}]" if sep else f"[{host}]"
             return f"{host}%{zone}" if sep else host
